@@ -8,6 +8,8 @@ import AfkakProofs.Client.A_Kept
 import AfkakProofs.Client.A_Wf
 import AfkakProofs.Client.A_Rk
 import AfkakProofs.Client.A5_Query
+import AfkakProofs.Client.A5_Covered
+import AfkakProofs.Client.A5_Coalesce
 import AfkakProps.Open.C08
 /-!
 # C08 — cached cluster metadata mirrors the broker's answer and self-heals when stale
@@ -250,7 +252,7 @@ theorem C08_reachable_monitor_wf (cfg : Afkak.ClientNet.Cfg) (evs : List (Afkak.
     Afkak.Monitor.C08.wf (evs.foldl (fun s e => (Afkak.ClientNet.step cfg s e.1 e.2).1) ({} : Afkak.ClientNet.St)).cache = true :=
   Afkak.ClientNet.wf_of_inv3 (Afkak.ClientNet.reachable_inv3 cfg evs {} Afkak.ClientNet.Inv3.init)
 
-/-- The open statement `C08_recovers_within_retry_budget` is FALSE as stated: its runs may contain clock steps, and a
+/-- The statement `C08_recovers_within_retry_budget_v1` (sessions 3-4) is FALSE as stated: its runs may contain clock steps, and a
     request that nobody answers before the client's request timeout is timed out by the client itself
     (`_mrtb_timeout`): the caller's third send fails with `FailedPayloadsError([], [(payload, RequestTimedOut)])`,
     the request is no longer pending - so "no request pending at the end" holds - and no response list is ever
@@ -259,8 +261,9 @@ theorem C08_reachable_monitor_wf (cfg : Afkak.ClientNet.Cfg) (evs : List (Afkak.
     statement holds (decided by evaluation).  Replayed on the real client (corpus/client/net-c08-recover-third-send-times-out.json):
     same observations - `result 3 failedPayloads - 0:brokerError:7`.  That is the designed behaviour, not a defect:
     the statement is too strong (it needs "no request of the run times out", and also constrains neither what a
-    BOOTSTRAP connection answers nor duplicate topic names in the layout); it stays open. -/
-theorem C08_recovers_within_retry_budget_counterexample : ¬ Open.C08_recovers_within_retry_budget := by
+    BOOTSTRAP connection answers nor duplicate topic names in the layout, and lets `expect=False` sends count): the open
+    statement `C08_recovers_within_retry_budget` is restated with these hypotheses (session 5). -/
+theorem C08_recovers_within_retry_budget_counterexample : ¬ Open.C08_recovers_within_retry_budget_v1 := by
   open Afkak.ClientNet Afkak.ClientNet.RecoverWitness in
   intro h
   have hwf : WellFormedRun cfg (past ++ evs) :=
@@ -313,6 +316,62 @@ theorem C08_query_monitor_holds (c : Cache) (hw : CWf c) (hk : BrokersKeyed c) (
   have h := (mergeTopicMetadata_mirror hw hk bs ts fetchedAll).1
   simp only [mirrorOk, Bool.and_eq_true] at h
   exact Afkak.ClientQuery.queryMirror_of_topicMirror h.1.1.2
+
+/-- **The covered part of the mirror survives a reset in the middle of the merge** (session 5; the re-entrant case the
+    mirror monitor used to skip): `_merge_topic_metadata` first runs `_update_brokers` - on a full refresh this closes
+    the clients of the brokers the response dropped, a request in flight on one of them fails at once and its failure
+    path calls `reset_all_metadata()` (`reset = true`) - and only then the per-topic loop.  Whether or not that reset
+    happened, afterwards every broker the response lists is known at the response's address (live clients told) and
+    every topic the response covers equals the response: the monitor `mon-covered` that is evaluated on the real
+    client's dump of every such perturbed metadata-reply step ("other topics untouched" is false there by design). -/
+theorem C08_covered_mirror_despite_reset (c : Cache) (hw : CWf c) (hk : BrokersKeyed c) (bs : List Broker)
+    (ts : List TopicMeta) (fetchedAll reset : Bool) :
+    let u := updateBrokersDict c (respBrokers bs) (fetchedAll && !(respBrokers bs).isEmpty)
+    let c1 := if reset then resetAll u.1 else u.1
+    let c2 := (respTopics ts).foldl (fun c e => mergeTopic c e.2) c1
+    brokersMirror c2 bs = true ∧ (respTopics ts).all (fun e => topicMirror c2 e.2) = true :=
+  covered_mirror_despite_reset hw hk bs ts fetchedAll reset
+
+/-- **The covered mirror at the coroutine's own merge action** (ties `C08_covered_mirror_despite_reset` to the
+    interpreter): well-formedness of the cache (`CWf`, `BrokersKeyed`) is preserved by EVERY action `exec` runs - so it
+    holds in every state a step passes through, also between the closes of dropped brokers' clients, the failures of
+    their requests, the `reset_all_metadata()` those trigger, and the per-topic loop - and in any such state the
+    per-topic merge action (`mergeTopics`, the loop of `_merge_topic_metadata`) leaves every topic the response covers
+    equal to the response, without touching `_brokers` or `clients` (which `unawareDone` updated before).  Not proved:
+    that nothing between the end of that action and the end of the step changes a covered topic again (the monitor
+    `mon-covered` is applied only to steps whose last action fired the load's Deferred). -/
+theorem C08_merge_action_mirrors_covered (cfg : Afkak.ClientNet.Cfg) :
+    (∀ (st : Afkak.ClientNet.St) (a : Afkak.ClientNet.Act), CWf st.cache ∧ BrokersKeyed st.cache →
+        CWf (Afkak.ClientNet.exec cfg st a).1.cache ∧ BrokersKeyed (Afkak.ClientNet.exec cfg st a).1.cache) ∧
+    (∀ (st : Afkak.ClientNet.St) (ts : List TopicMeta) (lo : Afkak.ClientNet.LOwner), CWf st.cache ∧ BrokersKeyed st.cache →
+        (respTopics ts).all (fun e => topicMirror (Afkak.ClientNet.exec cfg st (.mergeTopics ts lo)).1.cache e.2) = true ∧
+        (Afkak.ClientNet.exec cfg st (.mergeTopics ts lo)).1.cache.brokers = st.cache.brokers ∧
+        (Afkak.ClientNet.exec cfg st (.mergeTopics ts lo)).1.cache.clients = st.cache.clients) :=
+  ⟨fun st a h => Afkak.ClientNet.exec_wfc cfg st a h, fun st ts lo h => Afkak.ClientNet.mergeTopics_action_covered cfg st ts lo h⟩
+
+/-! Non-vacuity: a request is in flight on broker 2 when a full refresh drops broker 2: the reset empties the cache
+    (topic u is gone: "others untouched" fails), the covered topic t and the brokers mirror the response. -/
+example :
+    let c : Cache := { brokers := [(1, ⟨1, "h1", 9092⟩), (2, ⟨2, "h2", 9092⟩)],
+                       clients := [(1, ⟨1, "h1", 9092⟩), (2, ⟨2, "h2", 9092⟩)],
+                       t2b := [(("u", 0), some ⟨2, "h2", 9092⟩)], topicParts := [("u", [0])], topicErrs := [("u", 0)] }
+    let bs : List Broker := [⟨1, "h1", 9092⟩]
+    let ts : List TopicMeta := [⟨"t", 0, [⟨0, 0, 1⟩]⟩]
+    let u := updateBrokersDict c (respBrokers bs) true
+    let c2 := (respTopics ts).foldl (fun c e => mergeTopic c e.2) (resetAll u.1)
+    u.2 = [2] ∧ c2.topicParts = [("t", [0])] ∧ othersUntouched c c2 ts = false ∧
+    brokersMirror c2 bs = true ∧ (respTopics ts).all (fun e => topicMirror c2 e.2) = true := by decide
+
+/-- **A failed send invalidates - at the coroutine** (second sentence; `C08_failed_send_invalidates` is the kernel fact
+    `allInvalid (resetAll c)`): in ANY state of the client model, whenever the completion check of a send
+    (`sendCheck`: the tail of `_send_broker_aware_request`) hands the caller a `FailedPayloadsError`, the cache it
+    leaves holds no routing at all (`reset_all_metadata()` ran before the error was raised) - the monitor
+    `mon-allinvalid` evaluated on the real client's dump after every FailedPayloadsError (C07 and C08 checks). -/
+theorem C08_failed_send_invalidates_coroutine (cfg : Afkak.ClientNet.Cfg) (st : Afkak.ClientNet.St) (s o : Nat)
+    (tags : List Int) (failed : List (Nat × Afkak.ClientNet.Kind))
+    (h : (Afkak.ClientNet.exec cfg st (.sendCheck s)).2.2 = [.opResult o (.failedPayloads tags failed)]) :
+    allInvalid (Afkak.ClientNet.exec cfg st (.sendCheck s)).1.cache = true :=
+  Afkak.ClientNet.sendCheck_failed_invalidates cfg st s o tags failed h
 
 /-- **After an invalidation the queries say "unknown"**: a topic whose routing is invalid has no metadata
     (`has_metadata_for_topic` is False) and the error code of an unknown topic (`UnknownTopicOrPartitionError.errno`,
@@ -396,6 +455,9 @@ C08_reachable_monitor_wf
 C08_query_mirrors_response
 C08_query_after_invalidation
 C08_query_monitor_holds
+C08_covered_mirror_despite_reset
+C08_failed_send_invalidates_coroutine
+C08_merge_action_mirrors_covered
 -/
 /- OPEN_STATEMENTS
 C08_recovers_within_retry_budget
